@@ -15,6 +15,7 @@ func c08Alphabet() []seqStep {
 		{Kind: "CF", K: "k!"},
 		{Kind: "M", Name: "set-in-readonly"},
 		{Kind: "M", Name: "use-after-commit"},
+		{Kind: "M", Name: "use-after-successful-commit"},
 		{Kind: "M", Name: "empty-key"},
 		{Kind: "R", Cfg: 1, Clock: 1, Name: "use-after-close"},
 	}
